@@ -41,42 +41,54 @@ TREE.append((NS, '_NamespaceFactory.check_namespace_files_are_not_type_files'))
 # Namespace.__init__ strops the folder through LanguageContext.filter_id_for_target, _make_ns_list through Language.filter_id:
 # the model's single `strop` relies on the former delegating to the latter with the id type unchanged
 PATH.append(('src/nunavut/lang/__init__.py', 'LanguageContext.filter_id_for_target'))
-# the helper added by design_notes/C11_stem_validate_fix.patch; with it Namespace.__init__ has its second pinned shape
-STEM_VALIDATE = (NS, '_checked_namespace_file_stem')
+# the stem validation of design_notes/C11_stem_validate_fix.patch is in /repo since b107faf: part of the (single) path shape; the
+# pre-fix shape is no longer accepted (a revert fails closed)
+PATH.append((NS, '_checked_namespace_file_stem'))
+
+# support files: where the support namespace is read and joined into paths.  design_notes/C11_support_namespace_fix.patch adds the
+# helper _checked_support_namespace (second pinned shape).  SUPPORT_FIX_LANDED: flip to True when the patch is in /repo -- the
+# pre-fix shape is then rejected and Properties/C11.v's C11_support_ns_validated_live becomes a real obligation.
+SUPPORT_FIX_LANDED = False
+SUPPORT = [(LG, 'Language.support_namespace'), (JJ, 'SupportGenerator.__init__'),
+           (CM, 'IncludeGenerator.generate_include_filepart_list')]
+SUPPORT_VALIDATE = (LG, '_checked_support_namespace')
 
 
 def _dump(targets) -> str:
     return '\n'.join('## %s:%s\n%s' % (p, q, shape_pin.normalized_dump(p, q)) for p, q in targets) + '\n'
 
 
-def _two_shape_pin(name: str, targets, extra, flag_name: str, flag_doc: str):
-    """pins/<name>.txt = shape without `extra`, pins/<name>_stemfix.txt = shape with the patch that adds `extra`; which one /repo
-    has is emitted as the boolean `flag_name` the model is instantiated with; any third shape fails closed"""
+def _two_shape_pin(name: str, targets, extra, flag_name: str, flag_doc: str, landed: bool):
+    """pins/<name>.txt = shape without `extra`, pins/<name>_fixed.txt = shape with the patch that adds `extra`; which one /repo
+    has is emitted as the boolean `flag_name` the model is instantiated with, together with `pin_<name>_fix_landed`
+    (the obligation `fix_landed -> flag` is stated in Properties/C11.v).  Once landed the pre-fix shape is NOT accepted any more."""
     out = os.path.join(gen.GEN_DIR, 'Gen_Pin_%s.v' % name)
     head = gen.HEADER % ', '.join('%s:%s' % t for t in targets + [extra])
     try:
-        plain = open(os.path.join(shape_pin.PINS, name + '.txt'), encoding='utf-8').read()
-        fixed = open(os.path.join(shape_pin.PINS, name + '_stemfix.txt'), encoding='utf-8').read()
+        fixed = open(os.path.join(shape_pin.PINS, name + '_fixed.txt'), encoding='utf-8').read()
         flag = None
-        if _dump(targets) == plain:
-            try:
-                shape_pin.normalized_dump(*extra)
-            except KeyError:
-                flag = False        # the old shape, and the helper does not exist
-        else:
-            try:
-                if _dump(targets + [extra]) == fixed:
-                    flag = True
-            except KeyError:
-                pass
+        try:
+            if _dump(targets + [extra]) == fixed:
+                flag = True
+        except KeyError:
+            pass
+        if flag is None and not landed:
+            plain = open(os.path.join(shape_pin.PINS, name + '.txt'), encoding='utf-8').read()
+            if _dump(targets) == plain:
+                try:
+                    shape_pin.normalized_dump(*extra)
+                except KeyError:
+                    flag = False        # the pre-fix shape, and the helper does not exist
     except (OSError, KeyError, SyntaxError, AssertionError) as ex:
         gen.write_if_changed(out, head + '(* shape pin failed closed: %r *)\n' % (ex,))
         return False, 'shape pin %s failed closed: %r' % (name, ex)
     if flag is None:
         gen.write_if_changed(out, head + '(* shape of the pinned function(s) changed: the hand model is no longer known to describe the code *)\n')
-        return False, 'shape pin %s: the code has neither of the two shapes the hand model was written for' % name
+        return False, 'shape pin %s: the code has none of the shapes the hand model was written for' % name
     gen.write_if_changed(out, head + 'Definition pin_%s_ok : bool := true.\n(* %s *)\nDefinition %s : bool := %s.\n'
-                         % (name, flag_doc, flag_name, 'true' if flag else 'false'))
+                         '(* is the fix recorded as landed in /repo (tools/translators/gen_c11.py)? then the flag above must be true *)\n'
+                         'Definition pin_%s_fix_landed : bool := %s.\n'
+                         % (name, flag_doc, flag_name, 'true' if flag else 'false', name, 'true' if landed else 'false'))
     return True, 'ok (%s = %s)' % (flag_name, flag)
 
 
@@ -98,9 +110,20 @@ def pin_c11tree():
 
 
 def pin_c11path():
-    return _two_shape_pin('c11path', PATH, STEM_VALIDATE, 'pin_c11path_stem_validated',
-                          'does Namespace.__init__ pass the namespace file stem through _checked_namespace_file_stem '
-                          '(design_notes/C11_stem_validate_fix.patch)?')
+    ok, msg = shape_pin.check_pin('c11path', PATH)
+    if ok:   # the stem validation is part of the single pinned shape
+        out = os.path.join(gen.GEN_DIR, 'Gen_Pin_c11path.v')
+        head = gen.HEADER % ', '.join('%s:%s' % t for t in PATH)
+        gen.write_if_changed(out, head + 'Definition pin_c11path_ok : bool := true.\n'
+                             '(* part of the pinned shape: Namespace.__init__ passes the stem through _checked_namespace_file_stem (fix b107faf) *)\n'
+                             'Definition pin_c11path_stem_validated : bool := true.\n')
+    return ok, msg
+
+
+def pin_c11support():
+    return _two_shape_pin('c11support', SUPPORT, SUPPORT_VALIDATE, 'pin_c11support_ns_validated',
+                          'does Language.support_namespace validate its components (design_notes/C11_support_namespace_fix.patch)?',
+                          SUPPORT_FIX_LANDED)
 
 
 # the loop that writes one file per yielded output path (model: Namespace.c11_targets)
@@ -326,4 +349,5 @@ def c11_scan():
     return True, 'ok (%d stropping calls: %s; extension keys %s / %s)' % (len(ids), ','.join(ids), key_out, ','.join(keys_inc))
 
 
-GENERATORS = {'pin_c11tree': pin_c11tree, 'pin_c11path': pin_c11path, 'pin_c11gen': pin_c11gen, 'c11_scan': c11_scan}
+GENERATORS = {'pin_c11tree': pin_c11tree, 'pin_c11path': pin_c11path, 'pin_c11gen': pin_c11gen, 'pin_c11support': pin_c11support,
+              'c11_scan': c11_scan}
